@@ -38,6 +38,9 @@ PROPS = {
  "C12": ("exploration", "Hostile-input workload: for each seed specification (generated .y/.l in all syntaxes and every specification found under /repo) every truncation (exhaustive per seed) plus random structural mutants and character injections go through every specification parser entry point; monitors: no panic, returns (watchdog with isolated confirmation and input trace), value or non-empty errors, all error/warning spans inside the text on char boundaries.",
          "Trusted: the span validity predicate; the watchdog protocol for termination.",
          "runtime monitoring: robustness workload (exhaustive truncation + mutation) with assertion monitors and a termination watchdog", "DESIGN.md §4 C12"),
+ "C14": ("exploration", "For every generated grammar x {u8,u16,u32} x {fixed, variable} encoding the grammar and table are serialised with the same wincode calls the generated parser uses, reconstituted with lrpar::ctbuilder::_reconstitute, and a canonical dump of every public query plus the parse results of a batch of inputs is compared between the originals and the reconstituted objects.",
+         "Trusted: the dump covers the public API as of this tree (dump.rs); parse comparison under recovery is up to the first error's repair set.",
+         "runtime monitoring: round-trip observational-equivalence monitor over all public queries", "DESIGN.md §4 C14"),
  "C16": ("exploration", "Every state x token x rule of every generated table: state_actions/state_shifts/core_reduces/reduce_only_state/goto vs action() and the graph's edges, reachability of all states, and every closed state vs a reference LR(1) closure of its core. Exhaustive over cells per generated grammar; grammars are sampled.",
          "Trusted: harness FIRST/nullable/closure.",
          "runtime monitoring: invariant checks on the live state graph and table at the quiescent point after construction", "DESIGN.md §4 C16"),
